@@ -279,6 +279,23 @@ def directed(rng):
             out.append(scenario("unavail:%s:%s:multi" % (pname, shape), cat, [dc.pool("pa", requirements=reqs)], nodes, pods,
                                 [{"a": "Method", "method": "multi"}, {"a": "Method", "method": "single"}, {"a": "Round"}],
                                 {"kind": "directed", "case": "unavailable-precedence"}))
+    # M: an earlier command is still in flight: a draining node (marked for deletion / deleting) whose pod is being rescheduled
+    # onto an UNINITIALIZED in-flight replacement with spare room, next to the node under test; the draining node's pod may rely
+    # on that replacement, the pods of the node under test may not - whichever of the two the simulation places first
+    for drain in ("marked", "deleting"):
+        for stage in ("registered", "launched"):
+            for pd_cpu, p1_cpu in ((1500, 500), (500, 1500), (900, 900)):
+                for ncand in (1, 2):
+                    nodes = [dc.node("c1", "pa", "t2"), dc.node("d", "pr", "t2", **{drain: True}),
+                             dc.node("u", "pr", "t3", stage=stage, createdAt=900)]
+                    pods = [dc.pod("p1", "c1", cpu=p1_cpu), dc.pod("pd", "d", cpu=pd_cpu)]
+                    if ncand == 2:
+                        nodes.append(dc.node("c2", "pa", "t2"))
+                        pods += [dc.pod("p2", "c2", cpu=p1_cpu + 2300)]     # c2 is nearly full: no room for p1 there
+                    steps = [{"a": "Method", "method": "single"}, {"a": "Method", "method": "multi"}, {"a": "Round"}]
+                    out.append(scenario("inflight:%s:%s:%d-%d:%d" % (drain, stage, pd_cpu, p1_cpu, ncand), default_catalog(),
+                                        [dc.pool("pa"), dc.pool("pr", ca=-1)], nodes, pods, steps,
+                                        {"kind": "directed", "case": "command-in-flight"}))
     # D: the pod on the removed node disappears while the command waits (witness mentions a pod that is gone)
     nodes = [dc.node("c1", "pa", "t3")]
     pods = [dc.pod("p1", "c1", cpu=1500), dc.pod("p1b", "c1", cpu=300)]
@@ -403,12 +420,13 @@ def explore(rng, n, tag="explore"):
         # a node that has not initialized yet
         for j in range(rng.choice([0, 0, 0, 1, 2])):
             pods.append(dc.pod("pend%d" % j, "", cpu=rng.choice([200, 800, 1500])))
-        if rng.random() < 0.15:
+        inflight = rng.random() < 0.12     # an earlier command in flight: a draining node AND its uninitialized replacement
+        if inflight or rng.random() < 0.1:
             t = rng.choice(cat)
             o = rng.choice(t["offerings"])
             nodes.append(dc.node("gone", "pr", t["name"], zone=o["zone"], ct=o["ct"], **rng.choice([{"marked": True}, {"deleting": True}])))
-            pods.append(dc.pod("pg", "gone", cpu=rng.choice([300, 1200])))
-        if rng.random() < 0.15:
+            pods.append(dc.pod("pg", "gone", cpu=rng.choice([300, 1200, 2000])))
+        if inflight or rng.random() < 0.1:
             t = rng.choice(cat)
             o = rng.choice(t["offerings"])
             nodes.append(dc.node("fresh", "pr", t["name"], zone=o["zone"], ct=o["ct"], stage=rng.choice(["registered", "launched"])))
